@@ -41,7 +41,7 @@ def gen_inputs(rng, N, cfg, small):
         NUMBER_YEARS_TAKES_TO_REACH_INCREASED_AREA=3, INITIAL_HARVEST_DURATION_IN_MONTHS=8,
         DELAY=dict(ROTATION_CHANGE_IN_MONTHS=2, GREENHOUSE_MONTHS=cfg["ghDelay"], INDUSTRIAL_FOODS_MONTHS=cfg["indDelay"],
                    SEAWEED_MONTHS=cfg["swDelay"], FEED_SHUTOFF_MONTHS=min(cfg["feedMonths"], N), BIOFUEL_SHUTOFF_MONTHS=cfg["bioMonths"]),
-        INITIAL_GLOBAL_CROP_AREA=rng.uniform(1e5, 1e9), INITIAL_CROP_AREA_FRACTION=rng.choice([rng.uniform(0.001, 1.0), rng.uniform(0.001, 1.0), 3.0e-6]),
+        INITIAL_GLOBAL_CROP_AREA=rng.uniform(1e5, 1e9), INITIAL_CROP_AREA_FRACTION=(3.0e-6 if small else rng.uniform(0.001, 1.0)),   # (small countries hold a few millionths of the world's cropland)
         # (a country run also carries the hectares reported in the country table, which are not the share x world cropland)
         INITIAL_CROP_AREA_HA=rng.uniform(1e3, 1e8),
         ADD_GREENHOUSES=bool(cfg["gh"]), GREENHOUSE_AREA_MULTIPLIER=rng.uniform(0.02, 0.3), GREENHOUSE_GAIN_PCT=rng.uniform(10, 60),
